@@ -40,6 +40,9 @@ CONSTANTS
     MaxArgs,         \* longest argument list explored by LogA
     EPs,             \* entry-point classes explored by LogA
     MsgClasses,      \* message classes explored by LogA
+    Groups,          \* table of group values: Groups[g] is a sequence of attributes; an attribute <<k, -g>> is a group
+    CtxVals,         \* context contents explored by LogM: each a sequence of <<context key, value>> (value 0 = absent)
+    CallArgs,        \* call-site attribute lists explored by LogM
     MaxList,         \* bound on the length of attribute / writer / context-key lists in the exhaustive model
     Acts             \* enabled action families (subset of AllActs)
 
@@ -48,7 +51,7 @@ VARIABLE st
 STDOUT == -1
 STDERR == -2
 
-AllActs == {"Set", "With", "New", "NewDetached", "PkgSetLevel", "SetDefault", "LogF", "LogA"}
+AllActs == {"Set", "With", "New", "NewDetached", "PkgSetLevel", "SetDefault", "LogF", "LogA", "LogM", "SetAttrsR"}
 
 -----------------------------------------------------------------------------
 (* Per-logger configuration *)
@@ -62,7 +65,7 @@ DefaultCfg(js, clr, lvl) ==
 InitState ==
     [n |-> 1, parent |-> <<0>>, name |-> <<"">>,
      cfg |-> <<DefaultCfg(FALSE, TRUE, InitLevel)>>,
-     dbg |-> FALSE, deflvl |-> InitLevel, deflog |-> 1,
+     dbg |-> FALSE, deflvl |-> InitLevel, deflog |-> 1, attrsR |-> FALSE,
      treat |-> InitTreat, errdev |-> InitErrDev]
 
 Live(s) == 1..s.n
@@ -79,7 +82,7 @@ RemoveAllOf(seq, x) == SelectSeq(seq, LAMBDA y : y # x)
 (* Setter kinds: the effect of Set<K>(a, b) on one logger's configuration.  The result is a SET
    of configurations: a singleton except for removal from a list holding the writer twice,
    where the documentation does not say whether one or all occurrences go.                    *)
-SetterKinds == {"JSONMode", "ColorMode", "UTCMode", "TimeFormat", "Level", "Attrs", "Skip", "CtxKeys",
+SetterKinds == {"JSONMode", "ColorMode", "UTCMode", "TimeFormat", "Level", "Attrs", "Attrs1", "SetKV", "Skip", "CtxKeys",
                 "Writer", "AddWriter", "RemoveWriter", "ErrorWriter", "AddErrorWriter",
                 "RemoveErrorWriter", "AddLevelWriter", "RemoveLevelWriter", "ResetLevelWriter",
                 "ResetLevelWriters", "ResetWriters"}
@@ -95,7 +98,8 @@ ApplyK(c, k, a, b) ==
       [] k = "TimeFormat" ->
            {[c EXCEPT !.layout = IF Layouts[a] = "" THEN "2006-01-02T15:04:05.999999999Z07:00" ELSE Layouts[a]]}
       [] k = "Level" -> {[c EXCEPT !.level = a]}
-      [] k = "Attrs" -> {[c EXCEPT !.attrs = Append(c.attrs, <<a, b>>)]}
+      \* SetAttrs(attr) / SetAttrs1(Attrs{attr}) / Set(key, value): all append one attribute
+      [] k \in {"Attrs", "Attrs1", "SetKV"} -> {[c EXCEPT !.attrs = Append(c.attrs, <<a, b>>)]}
       [] k = "Skip" -> {[c EXCEPT !.skip = a]}
       [] k = "CtxKeys" -> {[c EXCEPT !.ctx = Append(c.ctx, a)]}
       [] k = "Writer" -> {[c EXCEPT !.wn = <<a>>]}
@@ -160,6 +164,8 @@ Guard(s, e) ==
       [] e.op = "NewDetached" -> TRUE
       [] e.op = "PkgSetLevel" -> TRUE
       [] e.op = "SetDefault" -> e.l \in Live(s)
+      [] e.op = "LogM" -> e.l \in Live(s)          \* a record with context CtxVals[e.a] and call attributes CallArgs[e.b]
+      [] e.op = "SetAttrsR" -> TRUE                \* the inherit-attributes flag (LattrsR) on (e.a = 1) / off
       [] e.op = "LogA" -> e.l \in Live(s)          \* a call through entry point e.k, severity e.a, message class e.mc, arguments e.args
       [] e.op = "LogF" -> e.l \in Live(s)          \* a record of severity e.a under fault assignment FailSets[e.b]
       [] OTHER -> FALSE
@@ -189,6 +195,8 @@ Step(s, e) ==
            {[s EXCEPT !.deflvl = e.a, !.cfg[s.deflog].level = e.a, !.dbg = s.dbg \/ e.a = Debug]}
       [] e.op = "SetDefault" -> {[s EXCEPT !.deflog = e.l]}
       [] e.op = "LogA" -> {s}
+      [] e.op = "LogM" -> {s}
+      [] e.op = "SetAttrsR" -> {[s EXCEPT !.attrsR = (e.a = 1)]}
       [] e.op = "LogF" -> {s}                        \* logging never changes the configuration; no fault state exists
 
 \* the logger a call returns (0: nothing / not a logger)
@@ -215,11 +223,40 @@ Dest(s, l, r) ==
     ELSE IF ErrClass(r, s.errdev) THEN s.cfg[l].we
     ELSE s.cfg[l].wn
 
-\* C07 (own attributes only; the full assembly is in the Log action): last occurrence of a key
-\* wins, ascending key order.  Attributes are <<key, value>> pairs with integer keys.
-AKeys(as) == {as[i][1] : i \in DOMAIN as}
-LastVal(as, k) == as[CHOOSE i \in DOMAIN as : as[i][1] = k /\ \A j \in DOMAIN as : j > i => as[j][1] # k][2]
-Merge(as) == LET ks == SetToSortSeq(AKeys(as), <) IN [i \in 1..Len(ks) |-> <<ks[i], LastVal(as, ks[i])>>]
+(* C07: attribute assembly.  An attribute is <<key, value>> with integer keys (the harness maps key
+   k to a name whose byte order is the numeric order) and positive integer values; <<key, -g>> is
+   a group whose members are Groups[g].
+     sources, in this order: the values found in the context for the logger's context keys, the
+       logger's own attributes preceded - iff the inherit flag is on - by its ancestors'
+       (outermost first), the call's own attributes;
+     each distinct key once, the last occurrence winning; ascending key order; the same inside
+       every group.
+   Leaves() flattens the merged tree to <<path, value>> in printed order (empty groups vanish).   *)
+AKeys(as) == {as[x][1] : x \in DOMAIN as}
+LastVal(as, k) == as[CHOOSE x \in DOMAIN as : as[x][1] = k /\ \A y \in DOMAIN as : y > x => as[y][1] # k][2]
+Merge(as) == LET ks == SetToSortSeq(AKeys(as), <) IN [x \in 1..Len(ks) |-> <<ks[x], LastVal(as, ks[x])>>]
+
+RECURSIVE Leaves(_, _)
+Leaves(as, prefix) ==
+    LET m == Merge(as)
+        F[x \in 0..Len(m)] ==
+            IF x = 0 THEN <<>>
+            ELSE F[x - 1] \o (IF m[x][2] < 0 THEN Leaves(Groups[-m[x][2]], Append(prefix, m[x][1]))
+                              ELSE <<[p |-> Append(prefix, m[x][1]), v |-> m[x][2]]>>)
+    IN F[Len(m)]
+
+RECURSIVE Chain(_, _)
+Chain(s, l) == IF s.attrsR /\ s.parent[l] # 0 THEN Chain(s, s.parent[l]) \o s.cfg[l].attrs ELSE s.cfg[l].attrs
+
+CtxKeyAttr(a) == 50 + a
+FromCtx(s, l, cv) ==
+    LET ks == s.cfg[l].ctx
+        Val(a) == IF \E x \in DOMAIN cv : cv[x][1] = a THEN cv[CHOOSE x \in DOMAIN cv : cv[x][1] = a][2] ELSE 0
+        F[x \in 0..Len(ks)] == IF x = 0 THEN <<>>
+                               ELSE F[x - 1] \o (IF Val(ks[x]) > 0 THEN <<<<CtxKeyAttr(ks[x]), Val(ks[x])>>>> ELSE <<>>)
+    IN F[Len(ks)]
+Sources(s, l, cv, ca) == FromCtx(s, l, cv) \o Chain(s, l) \o ca
+ExpectM(s, e) == Leaves(Sources(s, e.l, CtxVals[e.a], CallArgs[e.b]), <<>>)
 
 \* C01: does logger l emit a record of severity r
 Emits(s, l, r) == Admit(s.cfg[l].level, r, s.dbg, s.treat)
@@ -247,7 +284,7 @@ Deliver(s, l, r, fails) ==
    logger.  The expected outcome does not depend on the argument list - that IS the property;
    TLC enumerates the lists (ArgLists) so that every one of them is executed.                     *)
 ArgLists == UNION {[1..n -> Tokens] : n \in 0..MaxArgs}
-BlankClasses == {"empty", "blank"}
+BlankClasses == {"empty", "blank", "none"}      \* "none": Println() without any argument
 PkgEPs == {"pkg", "pkg.ctx", "pkg.Println"}
 Target(s, e) == IF e.k \in PkgEPs THEN s.deflog ELSE e.l
 ExpectA(s, e) ==
@@ -282,12 +319,12 @@ ArgB == {ab[2] : ab \in ArgPairs}
 \* lists grow without bound in the library; the exhaustive model stops appending at MaxList
 Room(l, k, b) ==
     /\ l \in Live(st)
-    /\ k = "Attrs" => Len(st.cfg[l].attrs) < MaxList
+    /\ k \in {"Attrs", "Attrs1", "SetKV"} => Len(st.cfg[l].attrs) < MaxList
     /\ k = "CtxKeys" => Len(st.cfg[l].ctx) < MaxList
     /\ k = "AddWriter" => Len(st.cfg[l].wn) < MaxList
     /\ k = "AddErrorWriter" => Len(st.cfg[l].we) < MaxList
     /\ k = "AddLevelWriter" => Len(st.cfg[l].wl[b]) < MaxList
-WithKinds == {"JSONMode", "ColorMode", "UTCMode", "TimeFormat", "Level", "Attrs", "Skip", "CtxKeys", "Writer", "ErrorWriter"}
+WithKinds == {"JSONMode", "ColorMode", "UTCMode", "TimeFormat", "Level", "Attrs", "Attrs1", "SetKV", "Skip", "CtxKeys", "Writer", "ErrorWriter"}
 
 Set(l, k, a, b) == "Set" \in Acts /\ <<a, b>> \in SetterArgs[k] /\ Room(l, k, b) /\ Do("Set", l, k, a, b)
 With(l, k, a, b) == "With" \in Acts /\ k \in WithKinds /\ st.n < MaxLoggers /\ <<a, b>> \in SetterArgs[k] /\ Do("With", l, k, a, b)
@@ -296,11 +333,14 @@ NewDetached(nm, oi) == "NewDetached" \in Acts /\ st.n < MaxLoggers /\ Do("NewDet
 PkgSetLevel(v) == "PkgSetLevel" \in Acts /\ "Level" \in DOMAIN SetterArgs /\ <<v, 0>> \in SetterArgs["Level"] /\ Do("PkgSetLevel", 0, "", v, 0)
 SetDefault(l) == "SetDefault" \in Acts /\ Do("SetDefault", l, "", 0, 0)
 LogF(l, r, fi) == "LogF" \in Acts /\ Do("LogF", l, "", r, fi)
+LogM(l, ci, ai) == "LogM" \in Acts /\ Do("LogM", l, "", ci, ai)
+SetAttrsR(b) == "SetAttrsR" \in Acts /\ b \in {0, 1} /\ Do("SetAttrsR", 0, "", b, 0)
 \* message classes are varied with an empty argument list, argument lists with a plain message
 LogA(l, ep, r, mc, args) ==
     /\ "LogA" \in Acts /\ l \in Live(st) /\ (mc = "plain" \/ args = <<>>)
     /\ (ep \in {"Println", "pkg.Println"} => r = Always)
     /\ (ep \in PkgEPs => r # Off)              \* there is no package-level function carrying Off
+    /\ (mc = "none" => ep \in {"Println", "pkg.Println"})
     /\ st' \in Step(st, [op |-> "LogA", l |-> l, k |-> ep, a |-> r, b |-> 0, mc |-> mc, args |-> args])
 
 Next ==
@@ -311,6 +351,8 @@ Next ==
     \/ \E v \in ArgA : PkgSetLevel(v)
     \/ \E l \in 1..MaxLoggers : SetDefault(l)
     \/ \E l \in 1..MaxLoggers, r \in LogSevs, fi \in DOMAIN FailSets : LogF(l, r, fi)
+    \/ \E l \in 1..MaxLoggers, ci \in DOMAIN CtxVals, ai \in DOMAIN CallArgs : LogM(l, ci, ai)
+    \/ \E b \in {0, 1} : SetAttrsR(b)
     \/ \E l \in 1..MaxLoggers, ep \in EPs, r \in LogSevs, mc \in MsgClasses, args \in ArgLists : LogA(l, ep, r, mc, args)
 
 Init == st = InitState
@@ -354,6 +396,20 @@ DbgSticky == [][st.dbg => st'.dbg]_st
 GateAgrees ==
     \A l \in Live(st) : \A r \in (Builtin \cup DOMAIN st.treat \cup {13, 15, -8}) :
         Admit(st.cfg[l].level, r, st.dbg, st.treat) = EnabledMech(st.cfg[l].level, r, st.dbg, st.treat)
+
+\* C07 at design level: what is printed has unique, ascending keys at every level, every source key
+\* appears, and the value printed for a top-level scalar key is its last occurrence in source order
+MergeOK ==
+    \A l \in Live(st) : \A ci \in DOMAIN CtxVals : \A ai \in DOMAIN CallArgs :
+        LET src == Sources(st, l, CtxVals[ci], CallArgs[ai])
+            m == Merge(src)
+        IN /\ \A x \in 1..(Len(m) - 1) : m[x][1] < m[x + 1][1]
+           /\ {m[x][1] : x \in DOMAIN m} = AKeys(src)
+           /\ \A x \in DOMAIN m : \E y \in DOMAIN src :
+                  /\ src[y] = m[x]
+                  /\ \A z \in DOMAIN src : z > y => src[z][1] # m[x][1]
+           \* call site over logger over ancestor over context
+           /\ \A x \in DOMAIN CallArgs[ai] : LastVal(src, CallArgs[ai][x][1]) = LastVal(CallArgs[ai], CallArgs[ai][x][1])
 
 \* C02 at design level: exactly one whole Write per selected destination iff admitted
 ExactlyOnce ==
